@@ -467,11 +467,13 @@ fn fx_item(r: &fastx::EitherRecord) -> Item {
 }
 
 /// all sniffing entry points on `bytes`: `K:<get_kind>,<get_kind_seek>[+moved],<EitherRecords::kind>` and the items
-/// via `get_kind` + matching reader and via `EitherRecords`
+/// via `get_kind` + matching reader and via `EitherRecords`; `N:` = number of `read` calls the data source received on
+/// the first path (`read_exact` of `get_kind` + the refills of the `BufReader` on the `Chain`)
 fn run_fx(bytes: &[u8], c: &Cfg) -> String {
     let limit = bytes.len() + 8;
     // 1. get_kind on the raw (fragmenting) reader, then the matching parser on the returned reader
-    let fr = Fragmenting::new(Cursor::new(bytes.to_vec()), c.sched.clone(), false);
+    let n1 = Rc::new(Cell::new(0));
+    let fr = Fragmenting::new(Counting { inner: Cursor::new(bytes.to_vec()), n: n1.clone() }, c.sched.clone(), false);
     let (k1, items1) = match fastx::get_kind(fr) {
         Ok((rd, fastx::Kind::FASTA)) => {
             let br = if c.cap == 0 { BufReader::new(rd) } else { BufReader::with_capacity(c.cap, rd) };
@@ -507,7 +509,7 @@ fn run_fx(bytes: &[u8], c: &Cfg) -> String {
             break;
         }
     }
-    format!("K:{},{},{} R:{} R:{}", k1, k2, k3, enc_items(&items1), enc_items(&items3))
+    format!("K:{},{},{} R:{} R:{} N:{}", k1, k2, k3, enc_items(&items1), enc_items(&items3), n1.get())
 }
 
 pub fn exec(toks: &[&str]) -> Result<String, String> {
